@@ -146,10 +146,15 @@ def chunk_bytes(nbytes):
         writer.CHUNK_SIZE_BYTES = old
 
 
-def store_events(hw, ev):
+def store_events(hw, ev, split_trace=False):
+    """split_trace: one store_feature call per trace name (same result in
+    every writer mode: replace mode replaces only the traces it is given)."""
     for feat, data in ev.items():
         if feat == USER_FEAT:
             hw.store_feature(feat, data, shape=USER_SHAPE)
+        elif feat == "trace" and split_trace:
+            for name in data:
+                hw.store_feature(feat, {name: data[name]})
         else:
             hw.store_feature(feat, data)
 
